@@ -578,5 +578,5 @@ def any_layout(ctx, R="R-C03-dtype-in"):
     from . import partial
     prog = ctx.prog
     c = prog.cls("compute.ShortIntegrationFrameComputer")
-    roots = [m for m in (prog.find_method(c, n) for n in ("compute_full", "compute_chunk", "finalize")) if m is not None]
+    roots = [m for m in (prog.find_method(c, n) for n in ("compute_full",)) if m is not None]
     partial.layout_independent(ctx, R, roots)
